@@ -3,6 +3,7 @@ import Proofs.TieAccept
 import Proofs.TieBuild
 import Proofs.TieLoopTail
 import Proofs.TieInnerStep
+import Proofs.SrcC05
 #print axioms PV.Proofs.C05.kt_stays_zero
 #print axioms PV.Proofs.C05.zero_temp_accept
 #print axioms PV.Proofs.C05.C05_monotone
@@ -22,3 +23,4 @@ import Proofs.TieInnerStep
 #print axioms PV.Proofs.Tie.loop_tail_frame
 #print axioms PV.Proofs.Tie.declared_translated_innerstep
 #print axioms PV.Proofs.Tie.inner_step_tie
+#print axioms PV.Proofs.Source.C05_source_zero_temp_accept
